@@ -161,7 +161,7 @@ pub fn run_c15(cfg: &Cfg) -> i32 {
             let _ = initial.apply(&payload);
         }
         let before = initial.clone();
-        let script = Script { running: e2e::running_config(&managed), faults: vec![], fail_connections: vec![], ephemeral_name: "bgpfu".into(), chunk: 0, slow_commit: vec![], faults_only_session: None, late_ms: 0 };
+        let script = Script { running: e2e::running_config(&managed), faults: vec![], fail_connections: vec![], ephemeral_name: "bgpfu".into(), chunk: 0, slow_commit: vec![], faults_only_session: None, late_ms: 0, no_match_is_empty_data: false };
         let (run, shared) = rt.block_on(async {
             let j = FakeJunos::start(script, initial).await.expect("fake junos");
             let run = e2e::run_agent(j.port, irr.port(), 0, &["-v"], &[], Duration::from_secs(25)).await;
@@ -250,7 +250,13 @@ pub fn run_l2(cfg: &Cfg, prop: L2) -> i32 {
     for i in 0..n {
         let idx = cfg.case_index(i);
         let mut r = cfg.prng(&format!("{pid}-l2"), idx);
-        let database = if r.chance(1, 2) { db::generate(r.next_u64(), Size::Small) } else { db::generate(r.next_u64(), Size::Medium) };
+        let mut database = if r.chance(1, 2) { db::generate(r.next_u64(), Size::Small) } else { db::generate(r.next_u64(), Size::Medium) };
+        // a filter-set nine levels deep whose innermost member names a set the IRR does not know:
+        // every evaluation of it does a good deal of successful work before it fails
+        for c in 1..=9 {
+            database.filter_sets.insert(format!("FLTR-VH-DEEP{c}"), if c < 9 { format!("FLTR-VH-DEEP{}", c + 1) } else { "AS-DOES-NOT-EXIST".to_string() });
+        }
+        let database = database;
         // pool of evaluable expressions whose reference evaluation works and which avoid empty as-sets
         let mut pool: Vec<Expr> = Vec::new();
         let mut guard = 0;
@@ -289,7 +295,7 @@ pub fn run_l2(cfg: &Cfg, prop: L2) -> i32 {
         let mut managed: BTreeMap<String, (String, Option<Expr>)> = BTreeMap::new();
         let names = ["fltr-a", "fltr-b", "fltr-c", "fltr-d", "fltr-e", "fltr-f", "fltr-g"];
         let history_json: std::cell::RefCell<Vec<Value>> = std::cell::RefCell::new(Vec::new());
-        let script0 = Script { running: String::new(), faults: vec![], fail_connections: vec![], ephemeral_name: "bgpfu".into(), chunk: 0, slow_commit: vec![], faults_only_session: None, late_ms: 0 };
+        let script0 = Script { running: String::new(), faults: vec![], fail_connections: vec![], ephemeral_name: "bgpfu".into(), chunk: 0, slow_commit: vec![], faults_only_session: None, late_ms: 0, no_match_is_empty_data: false };
         let mut eph = Config::default();
         'steps: for step in 0..steps {
             // evolve the managed set
@@ -341,7 +347,8 @@ pub fn run_l2(cfg: &Cfg, prop: L2) -> i32 {
                     if !r.chance(1, 3) {
                         victims.truncate(r.range(1, 3.min(victims.len())));
                     }
-                    let text = match r.below(5) {
+                    let text = match r.below(6) {
+                        5 => "FLTR-VH-DEEP1".to_string(),
                         0 => "AS-DOES-NOT-EXIST".to_string(),
                         1 => failing_set.clone().unwrap_or_else(|| "AS-DOES-NOT-EXIST".into()),
                         // a construct that cannot be evaluated without a peering: no prefix data
@@ -370,6 +377,12 @@ pub fn run_l2(cfg: &Cfg, prop: L2) -> i32 {
             script.running = e2e::running_config(&managed_list);
             // the replies reach the agent in one piece, or cut into small TLS records (C06 at the agent level)
             script.chunk = *r.pick(&[0usize, 0, 1, 5, 7, 64]);
+            // a running configuration without any policy statement: what a router sends when the
+            // request's subtree filter selects nothing is either the empty containment elements or
+            // an empty <data/>; the second reading is tried now and then, and a run that fails over
+            // it is recorded, not judged (C01 speaks of runs that report success)
+            let strict_empty = managed_list.is_empty() && idx % 3 == 0;
+            script.no_match_is_empty_data = strict_empty;
             // C01 is conditional on "the run reports success": make some runs hit a router-side
             // error on one of their loads (not necessarily the last). Such a run must either report
             // failure (then C01 says nothing) or, if it reports success, have converged all the same
@@ -391,7 +404,9 @@ pub fn run_l2(cfg: &Cfg, prop: L2) -> i32 {
             });
             let loads: Vec<&e2e::Req> = log.iter().filter(|e| e.op == "load-configuration").collect();
             history_json.borrow_mut().push(json!({"step": step, "managed": managed_list, "failing": failing, "irr_down": irr_down, "exit": run.exit, "ops": log.iter().map(|e| format!("{}:{}", e.op, e.reply)).collect::<Vec<_>>()}));
-            let wit = |extra: Value| json!({"case_index": idx, "seed": cfg.seed, "history": history_json.borrow().clone(), "stderr_tail": clip(&run.stderr.lines().rev().take(6).collect::<Vec<_>>().join(" | "), 900), "db": database.to_json(), "observed": extra});
+            let wit = |extra: Value| json!({"case_index": idx, "seed": cfg.seed, "history": history_json.borrow().clone(), "stderr_tail": clip(&run.stderr.lines().rev().take(6).collect::<Vec<_>>().join(" | "), 900),
+                "panic_message": run.stderr.lines().skip_while(|l| !l.contains("panicked at")).take(2).collect::<Vec<_>>().join(" | "),
+                "error_lines": clip(&run.stderr.lines().filter(|l| l.contains("ERROR") || l.contains("Error") || l.contains("error")).take(6).collect::<Vec<_>>().join(" | "), 1500), "db": database.to_json(), "observed": extra});
             if run.timed_out {
                 rep.inconclusive(&format!("case {idx} step {step}"), "agent did not exit within 40 s");
                 break 'steps;
@@ -408,6 +423,11 @@ pub fn run_l2(cfg: &Cfg, prop: L2) -> i32 {
                         // the run reports failure: outside C01's premise. What is in effect is what
                         // was committed before; the next run starts from there
                         rep.count("l2_runs_reporting_failure_after_a_load_error");
+                        eph = before;
+                        continue 'steps;
+                    }
+                    if run.exit != Some(0) && strict_empty && loads.is_empty() {
+                        rep.count("observed_not_judged:run-fails-when-the-filtered-running-configuration-comes-back-as-empty-data");
                         eph = before;
                         continue 'steps;
                     }
@@ -631,7 +651,7 @@ pub fn run_c20_agent(cfg: &Cfg) -> i32 {
         let to_file = r.chance(1, 3);
         let logfile = std::env::temp_dir().join(format!("vh-agent-log-{}-{idx}.log", std::process::id()));
         let managed = vec![("fltr-0".to_string(), "AS65000".to_string())];
-        let script = Script { running: e2e::running_config(&managed), faults: vec![], fail_connections: vec![outcome == "peer-drops"], ephemeral_name: "bgpfu".into(), chunk: 0, slow_commit: vec![], faults_only_session: None, late_ms: 0 };
+        let script = Script { running: e2e::running_config(&managed), faults: vec![], fail_connections: vec![outcome == "peer-drops"], ephemeral_name: "bgpfu".into(), chunk: 0, slow_commit: vec![], faults_only_session: None, late_ms: 0, no_match_is_empty_data: false };
         // unusual but plausible file layouts: bundles that contain the private key
         let bundle = std::env::temp_dir().join(format!("vh-bundle-{}-{idx}.pem", std::process::id()));
         let cat = |files: &[&str]| -> String {
@@ -840,7 +860,7 @@ fn run_daemon(k: f64, period: u64, outcomes: &[bool], signals: &[(f64, i32)], en
     }
     let mut fail: Vec<bool> = outcomes.iter().map(|s| !*s).chain(std::iter::repeat(true).take(64)).collect();
     let slow_commit: Vec<(usize, u64)> = slow.iter().map(|(c, virt_s)| (*c, (virt_s / k * 1000.0) as u64)).collect();
-    let mut script = Script { running: e2e::running_config(&[("fltr-0".to_string(), "AS65000".to_string())]), faults: vec![], fail_connections: vec![], ephemeral_name: "bgpfu".into(), chunk: 0, slow_commit, faults_only_session: None, late_ms: 0 };
+    let mut script = Script { running: e2e::running_config(&[("fltr-0".to_string(), "AS65000".to_string())]), faults: vec![], fail_connections: vec![], ephemeral_name: "bgpfu".into(), chunk: 0, slow_commit, faults_only_session: None, late_ms: 0, no_match_is_empty_data: false };
     if opts.leftover_evaluation_on_silent_irr.is_some() {
         // these sessions fail through their second get-config, not by being dropped at the hello
         let nleft = opts.leftover_evaluation_on_silent_irr.map_or(0, |x| x.0);
@@ -1218,5 +1238,169 @@ pub fn run_c19(cfg: &Cfg) -> i32 {
         rep.sample(json!({"scenario": sc.name, "K": k, "accepts_virtual_s": o.accepts.iter().map(|a| (a * 10.0).round() / 10.0).collect::<Vec<_>>(), "logged_delays": o.logged_delays, "exit": o.exit, "signals": o.signals, "timer_overshoot_ms": o.overshoot_ms}));
     }
     let _ = Prng::new(0);
+    rep.finish()
+}
+
+
+// =============================================================================== C01, daemon mode
+
+/// C01 for runs made by the daemon loop, one of which takes longer than the period while the IRR
+/// data changes: every run that commits must leave the router with what THAT run evaluated.
+/// IRR connection n serves data generation n (two fake IRRds behind a front that routes by
+/// connection ordinal); one connection is held silent for 1.5-3.7 periods before it is answered.
+pub fn run_c01_daemon(cfg: &Cfg) -> i32 {
+    let mut rep = Report::new(
+        "C01",
+        cfg,
+        "one evaluation = one daemon (real agent binary, period 1 s) against the fake router and two fake IRRds with different routes for AS65000 behind a front that routes the n-th connection to one of them and holds one connection silent for 1.5-3.7 s; \
+         after every acknowledged commit the committed policy is compared with the data generation that run's IRR connection was served; distinct = distinct (slow connection, hold, generation pattern)",
+    );
+    if !std::path::Path::new(&e2e::agent_bin()).exists() {
+        eprintln!("agent binary not built");
+        return 2;
+    }
+    rep.assumptions.push("runs are matched to IRR connections by ordinal (the k-th NETCONF session uses the k-th IRR connection): each run opens exactly one of each, in that order".into());
+    let mk = |routes: &[(u32, u8)]| {
+        let mut d = Db::default();
+        d.ases.insert(65000, irrfake::db::AsRoutes { v4: routes.to_vec(), v6: vec![] });
+        d
+    };
+    let db_a = mk(&[(0xC000_0200, 24), (0xC633_6400, 24)]);
+    let db_b = mk(&[(0xCB00_7100, 24)]);
+    let mut cases = Vec::new();
+    for slow_conn in [1usize, 2] {
+        for hold_ms in [1500u64, 2600, 3700] {
+            for pattern in [0u8, 1] {
+                cases.push((slow_conn, hold_ms, pattern));
+            }
+        }
+    }
+    if !cfg.thorough() {
+        let pick = (cfg.seed as usize) % 3;
+        cases = cases.into_iter().enumerate().filter(|(i, _)| i % 3 == pick).map(|(_, c)| c).collect();
+    }
+    let cases: Vec<_> = cases.into_iter().enumerate().filter(|(i, _)| (*i as u64) % cfg.shards == cfg.shard).map(|(_, c)| c).collect();
+    let rt = rt();
+    for (slow_conn, hold_ms, pattern) in cases {
+        // generation of connection n (1-based): pattern 0 = A B B B..., pattern 1 = A B A B...
+        let gen_of = move |n: usize| -> u8 { if n == 1 { 0 } else if pattern == 0 { 1 } else { ((n - 1) % 2) as u8 } };
+        let (irr_a, irr_b) = match (Server::start(db_a.clone(), Faults::default()), Server::start(db_b.clone(), Faults::default())) {
+            (Ok(a), Ok(b)) => (a, b),
+            _ => {
+                rep.inconclusive("fake irrd", "could not start");
+                continue;
+            }
+        };
+        let (pa, pb) = (irr_a.port(), irr_b.port());
+        let script = Script { running: e2e::running_config(&[("fltr-0".to_string(), "AS65000".to_string())]), faults: vec![], fail_connections: vec![], ephemeral_name: "bgpfu".into(), chunk: 0, slow_commit: vec![], faults_only_session: None, late_ms: 0, no_match_is_empty_data: false };
+        let out = rt.block_on(async {
+            let j = FakeJunos::start(script, Config::default()).await.map_err(|e| format!("junos: {e}"))?;
+            let lst = tokio::net::TcpListener::bind(("127.0.0.1", 0)).await.map_err(|e| format!("irr front: {e}"))?;
+            let irr_port = lst.local_addr().map_err(|e| format!("{e}"))?.port();
+            let conns = std::sync::Arc::new(std::sync::atomic::AtomicUsize::new(0));
+            let c2 = conns.clone();
+            tokio::spawn(async move {
+                loop {
+                    let Ok((mut c, _)) = lst.accept().await else { return };
+                    let n = c2.fetch_add(1, std::sync::atomic::Ordering::SeqCst) + 1;
+                    let up_port = if gen_of(n) == 0 { pa } else { pb };
+                    tokio::spawn(async move {
+                        use tokio::io::{AsyncReadExt, AsyncWriteExt};
+                        let mut kept: Vec<u8> = Vec::new();
+                        if n == slow_conn {
+                            let t0 = Instant::now();
+                            let mut buf = [0u8; 4096];
+                            while t0.elapsed() < Duration::from_millis(hold_ms) {
+                                match tokio::time::timeout(Duration::from_millis(5), c.read(&mut buf)).await {
+                                    Ok(Ok(0)) | Ok(Err(_)) => return,
+                                    Ok(Ok(k)) => kept.extend_from_slice(&buf[..k]),
+                                    Err(_) => {}
+                                }
+                            }
+                        }
+                        if let Ok(mut up) = tokio::net::TcpStream::connect(("127.0.0.1", up_port)).await {
+                            let _ = up.write_all(&kept).await;
+                            let _ = tokio::io::copy_bidirectional(&mut c, &mut up).await;
+                        }
+                    });
+                }
+            });
+            let mut cmd = tokio::process::Command::new(e2e::agent_bin());
+            cmd.args(["-f", "1", "--irrd-host", "127.0.0.1", "--irrd-port", &irr_port.to_string(), "-v"]);
+            cmd.args(["remote", "--netconf-host", "127.0.0.1", "--netconf-port", &j.port.to_string(), "--ca-cert-path", &e2e::pki("ca.crt"), "--client-cert-path", &e2e::pki("client.crt"), "--client-key-path", &e2e::pki("client.key")]);
+            cmd.env_remove("RUST_LOG");
+            cmd.stdin(std::process::Stdio::null()).stdout(std::process::Stdio::null()).stderr(std::process::Stdio::piped()).kill_on_drop(true);
+            let mut child = cmd.spawn().map_err(|e| format!("spawn: {e}"))?;
+            let mut stderr = child.stderr.take().unwrap();
+            let err_task = tokio::spawn(async move {
+                use tokio::io::AsyncReadExt;
+                let mut v = Vec::new();
+                let _ = stderr.read_to_end(&mut v).await;
+                v
+            });
+            // until four commits were seen (or 12 s)
+            let t0 = Instant::now();
+            while t0.elapsed() < Duration::from_secs(12) {
+                if j.shared.lock().unwrap().commits.len() >= 4 {
+                    break;
+                }
+                tokio::time::sleep(Duration::from_millis(20)).await;
+            }
+            unsafe {
+                libc::kill(child.id().unwrap_or(0) as i32, libc::SIGTERM);
+            }
+            let _ = tokio::time::timeout(Duration::from_secs(5), child.wait()).await;
+            let _ = child.kill().await;
+            let err = tokio::time::timeout(Duration::from_secs(2), err_task).await.ok().and_then(Result::ok).unwrap_or_default();
+            let sh = j.shared.clone();
+            j.stop();
+            Ok::<_, String>((sh, String::from_utf8_lossy(&err).into_owned(), conns.load(std::sync::atomic::Ordering::SeqCst)))
+        });
+        irr_a.stop();
+        irr_b.stop();
+        let key = format!("c01-daemon|{slow_conn}|{hold_ms}|{pattern}");
+        rep.case(Some(key.as_bytes()));
+        let (sh, stderr, irr_conns) = match out {
+            Ok(o) => o,
+            Err(e) => {
+                rep.inconclusive(&key, &e);
+                continue;
+            }
+        };
+        let g = sh.lock().unwrap();
+        let sessions_overlap = g.sessions.windows(2).any(|w| w[0].1.map_or(true, |end| w[1].0 < end));
+        if sessions_overlap {
+            rep.count("daemon_cases_with_overlapping_sessions");
+        }
+        rep.count_n("daemon_commits_judged", g.commits.len() as u64);
+        if g.commits.len() < 2 {
+            rep.inconclusive(&key, &format!("only {} commits within the time allowed", g.commits.len()));
+            continue;
+        }
+        let wit = |extra: Value| json!({"slow_irr_connection": slow_conn, "held_ms": hold_ms, "generation_pattern": pattern, "irr_connections": irr_conns,
+            "sessions_ms": g.sessions.iter().map(|s| json!([s.0, s.1])).collect::<Vec<_>>(), "commits_by_session": g.commits.iter().map(|c| c.0).collect::<Vec<_>>(),
+            "stderr_tail": clip(&stderr.lines().rev().take(8).collect::<Vec<_>>().join(" | "), 1200), "seed": cfg.seed, "observed": extra});
+        let mut bad = false;
+        for (session, state) in &g.commits {
+            // session indices count from 0; the k-th session uses the k-th IRR connection
+            let db = if gen_of(session + 1) == 0 { &db_a } else { &db_b };
+            let verdict = match state.policies.get("fltr-0") {
+                None => Err("policy fltr-0 absent from the committed state".to_string()),
+                Some(p) => compare_installed(p, &Expr::AsNum(65000), db, 1).map(|_| ()),
+            };
+            if let Err(e) = verdict {
+                bad = true;
+                rep.violation(
+                    if sessions_overlap { "daemon:commit-does-not-match-what-the-run-evaluated:runs-overlapped" } else { "daemon:commit-does-not-match-what-the-run-evaluated" },
+                    &format!("session {session} committed, but the committed policy is not what its IRR connection (generation {}) was served: {e}", gen_of(session + 1)),
+                    wit(json!({"committed": format!("{:?}", state.policies.get("fltr-0").map(|p| p.terms.iter().map(|t| t.filters.clone()).collect::<Vec<_>>()))})),
+                );
+                break;
+            }
+        }
+        if !bad {
+            rep.count("daemon_cases_in_which_every_commit_matched_its_run");
+        }
+    }
     rep.finish()
 }
